@@ -7,6 +7,7 @@ import (
 	"fmt"
 	"go/token"
 	"go/types"
+	"strings"
 
 	"golang.org/x/tools/go/ssa"
 )
@@ -174,6 +175,12 @@ func rangeCollectionOfHeader(b *ssa.BasicBlock) ssa.Value {
 		return nil
 	}
 	cmp, ok := iff.Cond.(*ssa.BinOp)
+	if ok && (cmp.Op == token.GTR || cmp.Op == token.NEQ) {
+		// consuming loop: for rest := X; len(rest) > 0; rest = rest[1:] { … rest[0] … }
+		if c := consumingLoopCollection(b, cmp); c != nil {
+			return c
+		}
+	}
 	if !ok || cmp.Op != token.LSS {
 		return nil
 	}
@@ -205,7 +212,9 @@ func rangeCollectionOfHeader(b *ssa.BasicBlock) ssa.Value {
 			good = false
 		}
 		if in, isIn := ln.Call.Args[0].(ssa.Instruction); isIn && naturalLoop(b)[in.Block()] {
-			good = false
+			// re-evaluated on every iteration: still one fixed collection when it is a field that nothing in the loop
+			// can write (no store to the field, no call other than builtins and pure string helpers)
+			good = good && fieldLoadInvariantIn(ln.Call.Args[0], naturalLoop(b))
 		}
 		if good {
 			return ln.Call.Args[0]
@@ -220,6 +229,86 @@ func rangeCollectionOfHeader(b *ssa.BasicBlock) ssa.Value {
 		return nil
 	}
 	return ln.Call.Args[0]
+}
+
+// fieldLoadInvariantIn: v is a load of a struct field and nothing inside the loop can change that field.
+func fieldLoadInvariantIn(v ssa.Value, loop map[*ssa.BasicBlock]bool) bool {
+	u, ok := v.(*ssa.UnOp)
+	if !ok || u.Op != token.MUL {
+		return false
+	}
+	fa, ok := u.X.(*ssa.FieldAddr)
+	if !ok {
+		return false
+	}
+	f := fieldOfAddr(fa)
+	for b := range loop {
+		for _, in := range b.Instrs {
+			if _, f2, _, ok := storeField(in); ok && f2 == f {
+				return false
+			}
+			if c, ok := in.(ssa.CallInstruction); ok {
+				n := calleeName(c)
+				if strings.HasPrefix(n, "builtin:") || strings.HasPrefix(n, "strings.") || strings.HasPrefix(n, "fmt.Sprint") || strings.HasPrefix(n, "strconv.") {
+					continue
+				}
+				return false
+			}
+		}
+	}
+	return true
+}
+
+// consumingLoopCollection: b is the header of `for rest := X; len(rest) > 0; rest = rest[1:]`; returns X.
+func consumingLoopCollection(b *ssa.BasicBlock, cmp *ssa.BinOp) ssa.Value {
+	k, isK := constInt(cmp.Y)
+	ln, ok := cmp.X.(*ssa.Call)
+	if !isK || k != 0 || !ok || calleeName(ln) != "builtin:len" || len(ln.Call.Args) != 1 {
+		return nil
+	}
+	phi := consumingPhi(b, ln.Call.Args[0])
+	if phi == nil {
+		return nil
+	}
+	var coll ssa.Value
+	for i, e := range phi.Edges {
+		if !b.Dominates(b.Preds[i]) {
+			if coll != nil && coll != e {
+				return nil
+			}
+			coll = e
+		}
+	}
+	return coll
+}
+
+// consumingPhi: v is a phi of block b whose back edges all carry v[1:].
+func consumingPhi(b *ssa.BasicBlock, v ssa.Value) *ssa.Phi {
+	phi, ok := v.(*ssa.Phi)
+	if !ok || phi.Block() != b {
+		return nil
+	}
+	if _, isSlice := phi.Type().Underlying().(*types.Slice); !isSlice {
+		return nil
+	}
+	back := 0
+	for i, e := range phi.Edges {
+		if !b.Dominates(b.Preds[i]) {
+			continue
+		}
+		back++
+		sl, ok := e.(*ssa.Slice)
+		if !ok || sl.X != ssa.Value(phi) || sl.High != nil || sl.Max != nil {
+			return nil
+		}
+		if k, ok := constInt(sl.Low); !ok || k != 1 {
+			return nil
+		}
+	}
+	if back == 0 {
+		return nil
+	}
+	return phi
 }
 
 // normalModePrune prunes the edges that contradict completionMode == "" (the value Parse passes for a real parse).
